@@ -22,11 +22,13 @@ pub mod linz;
 pub mod migsim;
 pub mod miri_legs;
 pub mod prng;
+pub mod real_leg;
 pub mod report;
 pub mod resp_ref;
 pub mod sim;
 pub mod syshist;
 pub mod syssim;
+pub mod tcpsys;
 
 /// Runs one scenario future on `$rt` under a message budget (see `sim::guarded`); a run-away
 /// scenario is reported as `<property>:message-loop`, the largest message count is kept as a counter.
